@@ -174,7 +174,8 @@ Proof.
   - unfold rets_ok, has_k2 in *. destruct (c_k2 c) as [k2|] eqn:K2.
     + cbn [b2n] in I33.
       assert (PC : prim_calls c = true).
-      { unfold prim_calls. unfold valid in V. rewrite K2 in *. apply andb_prop in V. destruct V as [_ V]. rewrite V.
+      { unfold prim_calls. unfold valid in V. rewrite K2 in *. apply andb_prop in V. destruct V as [V _].
+        apply andb_prop in V. destruct V as [_ V]. apply andb_prop in V. destruct V as [V _]. rewrite V.
         cbn [orb andb]. destruct (c_k c); reflexivity. }
       rewrite PC in I32. cbn [b2n] in I32.
       destruct (W5 ltac:(discriminate) O) as [[X Y]|[X Y]].
